@@ -194,7 +194,7 @@ def run(ctx):
         tlc.cleanup(d)
     rng = ctx.rng
     jobs = []
-    reps = ctx.pick(1, 4)
+    reps = ctx.pick(1, 16)
     for i, r in enumerate(rows):
         for k in range(reps):
             for fmt in ("cif", "res", "poscar"):
